@@ -301,7 +301,11 @@ func checkURIAgainstRedirects(client Client, uri string) error {
 		for _, uriGlob := range globClient.RedirectURIGlobs() {
 			isMatch, err := doublestar.Match(uriGlob, uri)
 			if err != nil {
-				return oidc.ErrServerError().WithParent(err)
+				// The URI has not been validated at this point: the error must not be
+				// one that is delivered by redirecting to it (as a server_error would be).
+				return oidc.ErrInvalidRequestRedirectURI().WithParent(err).
+					WithDescription("The redirect_uri patterns of the client configuration are malformed. " +
+						"If you have any questions, you may contact the administrator of the application.")
 			}
 			if isMatch {
 				return nil
